@@ -3,4 +3,4 @@ R BHS.ExportImport
 X ExportImport.export_db ExportImport.export ExportImport.import ExportImport.longest_of
 X ExportImport.startup ExportImport.startup_old ExportImport.run_import
 X ExportImport.chain_okb ExportImport.fields_okb ExportImport.table_matches_file ExportImport.records_denote
-X ExportImport.parse_row ExportImport.print_Z ExportImport.print_hex
+X ExportImport.good_record ExportImport.parse_row ExportImport.print_Z ExportImport.print_hex
